@@ -3,6 +3,7 @@ package bt
 import (
 	"encoding/json"
 	"errors"
+	"fmt"
 
 	"github.com/libsv/go-bt/v2/bscript"
 )
@@ -154,6 +155,9 @@ func (o *nodeOutputJSON) fromOutput(out *Output) error {
 }
 
 func (o *nodeOutputJSON) toOutput() (*Output, error) {
+	if o == nil || o.ScriptPubKey == nil {
+		return nil, fmt.Errorf("%w: output has no scriptPubKey", ErrEmptyValues)
+	}
 	out := &Output{}
 	s, err := bscript.NewFromHexString(o.ScriptPubKey.Hex)
 	if err != nil {
@@ -165,6 +169,9 @@ func (o *nodeOutputJSON) toOutput() (*Output, error) {
 }
 
 func (i *nodeInputJSON) toInput() (*Input, error) {
+	if i == nil || i.ScriptSig == nil {
+		return nil, fmt.Errorf("%w: input has no scriptSig", ErrEmptyValues)
+	}
 	input := &Input{}
 	s, err := bscript.NewFromHexString(i.ScriptSig.Hex)
 	if err != nil {
